@@ -1,10 +1,58 @@
-(* Props/C07_tcpascii.v — placeholder header; statements are added below. *)
-From PM.theories Require Import Base Expr Struct FrBaseA Lrc FrTcp FrAscii FrTls FrSpecA.
+(* Props/C07_tcpascii.v — C07 (corrupted frames are never delivered), half for the socket and
+   ASCII framers and the LRC.  Gate theorems hold from ANY receiver state (arbitrary buffer and
+   header), hence for every corruption, truncation, extension and surrounding traffic. *)
+From PM.theories Require Import Base Expr Struct FrBaseA Lrc FrTcp FrAscii FrSpecA.
 From PM.Generated Require Import GenFramerA.
-From PM.proofs Require Import FrA_lrc_proofs FrA_stream_proofs.
+From PM.proofs Require Import FrA_lrc_proofs FrA_tcp_proofs FrA_ascii_proofs.
 Open Scope list_scope.
 Open Scope Z_scope.
 
-Theorem C07_lrc_sum_zero : forall bs : bytes, (bsum bs + spec_lrc bs) mod 256 = 0.
-Proof. exact spec_lrc_sum. Qed.
-Print Assumptions C07_lrc_sum_zero.
+(* ASCII: whenever checkFrame accepts, the (trimmed) buffer is  ':' D c1 c2 CR LF rest  where D and
+   c1 c2 are hex, the two characters c1 c2 are the LRC of the bytes encoded by D (checkLRC is
+   the specification LRC by C03_lrc), the header holds that LRC, the unit parsed from the first two
+   characters and len = index of CR; nothing before the ':' is used *)
+Theorem C07_gate_ascii : forall st st1 : astate,
+  a_check lrc ascii st = (st1, true) ->
+  exists pre D c1 c2 rest data,
+    a_buf st = pre ++ a_buf st1 /\
+    ascii_span (a_buf st1) (a_uid (a_hdr st1)) (match a_lrc (a_hdr st1) with Some v => v | None => -1 end)
+               data D c1 c2 rest /\
+    a_len (a_hdr st1) = Z.of_nat (S (length D + 2)).
+Proof. intros st st1 H. rewrite a_check_eq in H. exact (ascii_check_gate st st1 H). Qed.
+Print Assumptions C07_gate_ascii.
+
+(* TCP: whenever checkFrame accepts, the header is the first 7 buffered bytes, its length field is
+   >= 2 and consistent: the PDU given to the decoder is exactly the next len-1 bytes, all present *)
+Theorem C07_gate_tcp : forall st st1 : tstate,
+  t_check tcp st = Ok (st1, true) ->
+  t_buf st1 = t_buf st /\ t_hdr st1 = hdr_of (firstn 7 (t_buf st)) /\ 2 <= h_len (t_hdr st1) /\
+  t_getframe tcp st1 = firstn (Z.to_nat (h_len (t_hdr st1) - 1)) (skipn 7 (t_buf st)) /\
+  Z.of_nat (length (t_getframe tcp st1)) = h_len (t_hdr st1) - 1 /\
+  t_buf st = firstn 7 (t_buf st) ++ t_getframe tcp st1 ++ t_buf (t_advance tcp st1).
+Proof. exact tcp_check_gate. Qed.
+Print Assumptions C07_gate_tcp.
+
+(* the gate does not cover the _process(error=True) branch of the socket framer: open finding *)
+Theorem C07_tcp_errpath_refuted : exists dec c chunk d,
+  t_recv base tcp dec c (t_init tcp) chunk = ({| t_buf := [1%N]; t_hdr := hdr0 |}, [d], Done) /\
+  (length chunk < 8)%nat /\ d_pdu d = chunk /\ justified_tcp chunk d = false.
+Proof. exact tcp_errpath_refuted. Qed.
+Print Assumptions C07_tcp_errpath_refuted.
+
+(* detection power of the LRC: changing any single byte of unit+PDU+LRC (in particular any single
+   hex character of a frame into another hex character) breaks the check equation *)
+Theorem C07_lrc_single_char : forall (pre post : bytes) (x x' : N),
+  (x < 256)%N -> (x' < 256)%N -> x <> x' ->
+  lrc_ok (pre ++ x :: post) -> ~ lrc_ok (pre ++ x' :: post).
+Proof. exact lrc_single_byte. Qed.
+Print Assumptions C07_lrc_single_char.
+
+Theorem C07_lrc_ok_iff : forall (body : bytes) (ck : N), (ck < 256)%N ->
+  (lrc_ok (body ++ [ck]) <-> Z.of_N ck = spec_lrc body).
+Proof. exact lrc_ok_iff. Qed.
+Print Assumptions C07_lrc_ok_iff.
+
+Example C07_nonvacuous :
+  snd (a_check lrc ascii {| a_buf := [120; 58; 48; 49; 48; 51; 70; 67; 13; 10; 7]%N; a_hdr := a_hdr_init ascii |}) = true
+  /\ lrc_ok [1; 3; 252]%N.
+Proof. split; vm_compute; reflexivity. Qed.
